@@ -158,6 +158,37 @@ def main():
                 got = "AMBIGUOUS" if s_.startswith("Ambiguous") else "NOMETHOD" if s_.startswith("No method") else f"TypeError:{s_[:50]}"
             if got != want:
                 fail(f"keyword_only_value_types[{variant}]", call=[list(a_), k_], got=got, expected=want)
+    # "preferred over methods declared on the bound OR ITS SUBCLASSES": a condition on numbers.Number / int next to static
+    # methods on int / bool; when the condition does not hold the static method runs
+    import numbers
+
+    from ovld.dependent import Dependent
+
+    for bound, sub, good, bad in ((numbers.Number, int, 5, -5), (int, bool, True, False), (object, str, "yes", "")):
+        ov = Ovld(name="rel")
+
+        def dep(x: Dependent[bound, lambda v: bool(v) and (not isinstance(v, (int, float)) or v > 0)]):
+            return "dependent"
+
+        def static(x: sub):
+            return "static"
+
+        def base(x: object):
+            return "base"
+
+        for g_ in (static, dep) if bound is int else (dep, static):
+            ov.register(g_)
+        if bound is not object:
+            ov.register(base)
+        for v, want in ((good, "dependent"), (bad, "static")):
+            n += 1
+            try:
+                got = ov(v)
+            except TypeError as e:
+                s_ = str(e)
+                got = "AMBIGUOUS" if s_.startswith("Ambiguous") else "NOMETHOD" if s_.startswith("No method") else f"TypeError:{s_[:50]}"
+            if got != want:
+                fail("dependent_method_preferred_over_a_method_on_a_subclass_of_its_bound", bound=getattr(bound, "__name__", str(bound)), static_on=sub.__name__, value=repr(v), got=got, expected=want)
     print(json.dumps(dict(evaluations=n, failing=list(failing.values()))))
     return 1 if failing else 0
 
